@@ -23,6 +23,7 @@ type Profile struct {
 	MaxOps       int
 	Keys         [2]int
 	NoPanic      bool
+	BoundOnly    bool // size- or weight-bounded configurations only, maximum well below the key space
 	ReadBursts   bool // generate runs of 17-40 reads (overflowing a 16-slot read buffer stripe)
 	WheelBias    bool // custom expiry: short creation TTLs (wheel level 0/1), reads extending to a coarser level
 	SmallReadBuf bool // one read-buffer stripe (16 slots): read events get dropped
@@ -95,6 +96,9 @@ func GenCfg(r *simrt.Rng, p *Profile) Cfg {
 	b := p.ForceBound
 	if b == "" {
 		b = []string{"none", "size", "size", "weight", "weight"}[r.Intn(5)]
+		if p.BoundOnly && b == "none" {
+			b = []string{"size", "weight"}[r.Intn(2)]
+		}
 	}
 	c.Bound = b
 	switch b {
